@@ -12,11 +12,12 @@ STAGE = os.environ.get("VERIF_STAGE")
 if STAGE and STAGE not in sys.path:
     sys.path.insert(0, STAGE)
 
-MODULES = ["core", "api", "schema", "converted_types", "dataframe", "encoding", "util"]
+MODULES = ["core", "api", "schema", "converted_types", "dataframe", "encoding", "util", "compression"]
 # lookup tables filled at import and only read afterwards (checked below: no function assigns into them)
 TABLES = {"core": {"rev_map", "decom_into", "simple"}, "api": {"ops"}, "util": {"seps", "ops"},
           "converted_types": {"simple", "complex", "nullable", "pandas_nullable"}, "encoding": {"DECODE_TYPEMAP"},
-          "schema": set(), "dataframe": set()}
+          "schema": set(), "dataframe": set(),
+          "compression": {"compressions", "decompressions", "decom_into", "rev_map"}}
 # memo caches: a function stores the value it computed for a key; every thread computes the same value for the key
 MEMO = {"util": {"seps"}}
 
@@ -60,8 +61,47 @@ def no_module_buffers():
                 kind="contract", function="fastparquet." + m, obligation="no shared scratch state in the read path",
                 detail="fastparquet.%s: %s - state shared by every thread that decodes pages" % (m, b),
                 shape=dict(module=m, harness="lemma.no_module_buffers"), cls="lemma:no_module_buffers",
-                witness=dict(driver="py:vf.pyshim.lemma_c20:replay_threads", args=dict(module=m, what=b))))
+                witness=dict(driver="py:vf.pyshim.lemma_c20:replay_shared", args=dict(module=m, what=b))))
     return res
+
+
+def replay_shared(module, what):
+    """shared scratch state shows in threads - or already in one thread, when a later page reuses what an earlier page
+    of the same chunk still refers to (dictionary page and data page of equal uncompressed size)"""
+    r = replay_sequential_pages()
+    if r[0]:
+        return True, "%s; %s" % (what, r[1])
+    return replay_threads(module, what)
+
+
+def replay_sequential_pages():
+    import shutil, tempfile
+    import fastparquet
+    from vf.pyshim import flat_file
+    d = tempfile.mkdtemp(prefix="c20-")
+    try:
+        fn = os.path.join(d, "t.parq")
+        for version in (1, 2):
+            for k in (2, 3, 4, 5, 8):
+                width = max((k - 1).bit_length(), 1)
+                dictionary = [1000 + 37 * i for i in range(k)]
+                for groups in range(1, 40):
+                    n = groups * 8
+                    idx = [(i * 7 + 3) % k for i in range(n)]
+                    if 1 + len(flat_file._hybrid_bitpacked(idx, width)) != 8 * k:
+                        continue                    # value section as long as the dictionary page
+                    flat_file.build_dict(fn, dictionary, idx, width, version=version, compress=True)
+                    got = [int(x) for x in fastparquet.ParquetFile(fn).to_pandas()["x"]]
+                    want = [dictionary[i] for i in idx]
+                    if got != want:
+                        bad = [i for i in range(n) if got[i] != want[i]]
+                        return True, ("snappy file, v%d pages, dictionary of %d entries (%d bytes) followed by a data "
+                                      "page of %d rows whose values take %d bytes: %d rows decode wrongly, e.g. row %d = "
+                                      "%d instead of %d" % (version, k, 8 * k, n, 8 * k, len(bad), bad[0], got[bad[0]],
+                                                            want[bad[0]]))
+        return False, "pages of equal size decode independently"
+    finally:
+        shutil.rmtree(d, ignore_errors=True)
 
 
 def replay_threads(module, what):
